@@ -26,7 +26,7 @@ CONFIG = dict(
     min_nontrivial={"quick": 1500, "thorough": 20000},
     nshards={"quick": 8, "thorough": 16},
     timeout={"quick": 600, "thorough": 3600},
-    required_counters=("deliveries_checked", "nesting_cases_within_budget", "failed_checks_before_later_ones", "report_files_checked", "safety_checks", "loader_reports_compared"),
+    required_counters=("deliveries_checked", "checked_then_edited", "nesting_cases_within_budget", "failed_checks_before_later_ones", "report_files_checked", "safety_checks", "loader_reports_compared"),
 )
 
 MODULES = {
@@ -155,6 +155,8 @@ def check(ctx, f, analysis, loader, UnsafeFileError, label, data):
             os.remove(rpath)
     if label.startswith(("directed", "perop", "grid")) or int(ch[:2], 16) % 8 == 0:
         check_deliveries(ctx, f, analysis, loader, UnsafeFileError, label, data, w)
+    if label.startswith(("directed", "perop", "proto-sweep")) or int(ch[:2], 16) % 4 == 1:
+        checked_then_edited(ctx, f, analysis, label, data, w)
     # the same report through the checked loader (threshold LIKELY_SAFE); nothing is unpickled
     FakePickle.calls.clear()
     try:
@@ -280,6 +282,42 @@ def check_deliveries(ctx, f, analysis, loader, UnsafeFileError, label, data, w):
         if ji != js:
             agg.violation(f"loader-report-differs:delivery:{kind}", "UnsafeFileError.info differs from to_dict() for the same delivery",
                           dict(w, delivery=kind, info=ji[:300], to_dict=js[:300]))
+
+
+def checked_then_edited(ctx, f, analysis, label, data, w):
+    """check, edit the same object (opcodes put in front of whatever is there, also in front of PROTO / FRAME), check
+    again: if the edited object still decompiles the second check returns a verdict too."""
+    agg = ctx.agg
+    edits = [("magic-int-front", lambda p: p.insert_magic_int(4242, index=0)), ("insert-none-pop-front", lambda p: (p.insert(0, f.Pop()), p.insert(0, f.NoneOpcode()) if hasattr(f, "NoneOpcode") else p.insert(0, f.Pickled.load(b"N.")[0]))),
+             ("insert-mid", lambda p: (p.insert(len(p) // 2, f.Pickled.load(b"K\x07.")[0]), p.insert(len(p) // 2 + 1, f.Pop()))),
+             ("python-first", lambda p: p.insert_python_exec("v = 1")), ("python-last", lambda p: p.insert_python("1", run_first=False)),
+             ("delete-first", lambda p: p.__delitem__(0)), ("proto-front", lambda p: p.insert(0, f.Proto.create(2)))]
+    for ename, edit in edits:
+        try:
+            p = f.Pickled.load(data)
+            analysis.check_safety(p)
+            edit(p)
+        except RecursionError:
+            return
+        except Exception:
+            continue
+        try:
+            ast.unparse(f.Pickled(list(p)).ast)          # does the edited opcode list (fresh object) still decompile?
+        except RecursionError:
+            return
+        except Exception:
+            continue
+        agg.count("checked_then_edited")
+        try:
+            res = analysis.check_safety(p)
+            json.dumps(res.to_dict())
+        except RecursionError:
+            return
+        except Exception as e:
+            agg.violation(f"analysis-raises:after-edit:{type(e).__name__}",
+                          f"check, {ename}, check again on one object: the second check raises {type(e).__name__}: {str(e)[:100]} "
+                          f"(the edited opcode list decompiles)", dict(w, edit=ename))
+            return
 
 
 def corpus(ctx):
